@@ -12,6 +12,7 @@ package itself included — has q selected at a version contained in set), and e
 (package, version) was returned by `choose_version` in this run.
 -/
 import PubgrubProofs.OwnInvariant
+import PubgrubProofs.RangeAnyOrder
 
 namespace Pubgrub.C01
 open Pubgrub
@@ -35,5 +36,20 @@ theorem C01_dependencies_satisfied (W : World P S V M) (hW : W.SetsValid) (debug
       ∀ q set, (q, set) ∈ ds → ∃ w, SmallMap.get sel q = some w ∧ VersionSet.contains set w = true := by
   have hs := (solution_valid W hW debug fuel root rv s sel h).1
   exact ⟨hs.offered p v hp, hs.deps p v hp⟩
+
+/-! ### `Range V` over ANY linear order (the discrete `u32`, `SemanticVersion` included), where `Range` is
+not a `LawfulVersionSet`: pulled back along the embedding into `Range (V ×ₗ ℚ)` (RangeHom, HomSolver,
+RangeAnyOrder) -/
+section AnyOrder
+variable {P V M Pr E : Type} [DecidableEq P] [LinearOrder V] [LE Pr] [DecidableLE Pr]
+
+theorem C01_range_solution_valid (W : World P (Range V) V M) (hW : W.RangesWF) (debug : Bool) (fuel : Nat)
+    (root : P) (rv : V) (s : SolverState P (Range V) V M Pr) (sel : List (P × V))
+    (h : ReachableWB (E := E) W debug fuel root rv (s, .solution sel)) :
+    IsSolution W root rv (fun p => SmallMap.get sel p) ∧
+      (∀ p v, SmallMap.get sel p = some v → (p, v) ∈ s.added) :=
+  range_solution_valid W hW debug fuel root rv s sel h
+
+end AnyOrder
 
 end Pubgrub.C01
